@@ -519,15 +519,31 @@ func execMalformed(c MalCase) kit.Outcome {
 	// executed as decoded; everything from the error on must not be executed in any altered form.
 	off := 0
 	framingErr := false
+	strict := true
 	for off < len(stream) {
 		v, n, err := respx.Decode(stream[off:])
 		if err != nil {
 			framingErr = err != respx.ErrIncomplete
 			break
 		}
-		if v.Kind == respx.Array && len(v.Arr) == 3 && strings.EqualFold(string(v.Arr[0].Str), "SET") && v.Arr[1].Kind == respx.Bulk && v.Arr[2].Kind == respx.Bulk {
+		// a command is an array of >= 1 bulk strings; any other well-formed value (simple string,
+		// integer, nil, empty or nested array) is not a command: the server may ignore it or end the
+		// connection there, so commands after it are allowed but no longer required to take effect
+		isCmd := v.Kind == respx.Array && !v.Null && len(v.Arr) >= 1
+		for _, e := range v.Arr {
+			if e.Kind != respx.Bulk || e.Null {
+				isCmd = false
+			}
+		}
+		if !isCmd {
+			strict = false
+		}
+		if isCmd && len(v.Arr) == 3 && strings.EqualFold(string(v.Arr[0].Str), "SET") {
 			k := string(v.Arr[1].Str)
-			want[k], must[k] = string(v.Arr[2].Str), true
+			want[k] = string(v.Arr[2].Str)
+			if strict {
+				must[k] = true
+			}
 		}
 		off += n
 	}
